@@ -90,6 +90,9 @@ static void run_C16(const Args &a, long cs) {
 		int kind = (int)r.below(13);
 		std::string key = KEYS[r.below(NKEYS)];
 		if (!M.kv.empty() && r.coin(0.35)) key = M.kv[r.below(M.kv.size())].first; // revisit present keys (overwrite / remove / read)
+		// ... or name a present key in another spelling (lower case, or only the first letter kept): keys are compared exactly, so that key is absent
+		// (lookups, typed reads and removals must say so and leave the stored key alone) and as a key to write it is in the must-reject class
+		if (!M.kv.empty() && r.coin(0.08)) { std::string k0 = M.kv[r.below(M.kv.size())].first, k1 = k0; bool all = r.coin(0.6); for (size_t i = all ? 0 : 1; i < k1.size(); i++) k1[i] = (char)std::tolower((unsigned char)k1[i]); if (k1 != k0 && M.find(k1) < 0) { key = k1; count("keys-spelled-in-another-case-than-a-present-key"); } }
 		h = hash_mix(h, hash_str(key) + kind);
 		switch (kind) {
 		case 0: case 1: case 2: case 3: case 4: { // write_key<int|double|string> (C++), or via C
